@@ -4,12 +4,20 @@ import acc_gen
 from acc_gen import Book, HANDLER_KINDS, IDLE_KINDS, valid, shrink, classify
 
 HARNESS_BIN = "c13"
+# when an internal signature (accept_loop, TokenSet) changes and c13 no longer builds, the full-server
+# scenarios still run: they use only the public API
+FALLBACK_BIN = "c13srv"
+
+
+def fallback_supports(case):
+    return case.startswith("srv ")
+
 RULE = ("'acc' cases: accept_loop driven directly, the permit revoked at every position of base histories (before any "
         "connection, below the limit, at the limit, with clients waiting in the backlog), pool sizes 1-4; 'srv' cases: the full "
         "server with the revocation injected at each phase of a connection's life {no connection, idle keep-alive, head partially "
         "received, handler running, body upload in progress, all slots occupied by idle connections} x 1..max_conns connections in "
         "mixed phases, followed by the follow-ups that distinguish the outcomes (gate opened, one further request, a second "
-        "further request, a connect after the stop). Observed: stopped signal (2.5 s bound per step), listener refusing "
+        "further request, 2-3 pipelined requests in ONE client write before / after the revocation, a connect after the stop). Observed: stopped signal (2.5 s bound per step), listener refusing "
         "connects, complete responses read by the clients, connections closed by the server. Non-trivial = the case contains a "
         "revocation with at least one live connection.")
 ASSUMPTIONS = [
@@ -100,6 +108,24 @@ def gen(rng, tier):
         # more clients than slots: the waiting ones are never served
         cases.append(staged(n, ["idle"] * (n + 2), 2))
         cases.append(staged(n, ["handler"] * (n + 1), 1))
+    # pipelined bursts: k complete requests in ONE client write on an open connection, before and
+    # after the revocation; after it at most one further request may be served, then EOF
+    for n in (1, 2):
+        for j in (2, 3):
+            cases.append("srv %d c l0 r b0:%d l0" % (n, j))            # idle connection, burst after the stopped signal
+            cases.append("srv %d c l0 r b0:%d l0 c" % (n, j))
+            cases.append("srv %d c l0 b0:%d r l0" % (n, j))            # burst received, then revoked while its first request runs
+            cases.append("srv %d c b0:%d r l0" % (n, j))               # slow in-flight request + pipelined followers, then revoke
+            cases.append("srv %d c r b0:%d l0" % (n, j))               # revoke while the handler runs, followers arrive afterwards
+            cases.append("srv %d c b0:%d l0 l0 r l0" % (n, j))         # no revocation until the burst is half served
+    cases.append("srv 2 c c l0 r b0:2 b1:2 l0 l1")
+    cases.append("srv 2 c c c l0 l1 b0:3 r b1:2 l0 l1")
+    cases.append("srv 1 c l0 p0 r b0:2 l0")                            # half a head, revoke, the rest + one more in one write
+    # one open idle connection (or half a head) far below the limit: the signal must still come
+    for n in (2, 3, 4):
+        cases.append("srv %d c l0 r" % n)
+        cases.append("srv %d c l0 p0 r" % n)
+        cases.append("srv %d c l0 u0 r" % n)
     nmix = 40 if tier == "quick" else 1500
     for _ in range(nmix):
         n = rng.choice([1, 2, 3, 4])
@@ -148,7 +174,7 @@ def extra_evidence(results):
         pass
     hits = {"revoke before any connection": 0, "revoke with all slots held": 0, "revoke with clients in the backlog": 0,
             "revoke while a handler runs": 0, "revoke with a partial head / upload": 0, "connect after stop": 0,
-            "further request after revoke": 0}
+            "further request after revoke": 0, "pipelined burst after revoke": 0, "pipelined burst before revoke": 0}
     for (prof, c, i, m, v) in results:
         t = c.split()
         if "r" not in t[2:]:
@@ -169,6 +195,10 @@ def extra_evidence(results):
             hits["revoke with a partial head / upload"] += 1
         if "c" in after:
             hits["connect after stop"] += 1
-        if any(x[0] == "q" for x in after):
+        if any(x[0] in "qb" for x in after):
             hits["further request after revoke"] += 1
+        if any(x[0] == "b" for x in after):
+            hits["pipelined burst after revoke"] += 1
+        if any(x[0] == "b" for x in before):
+            hits["pipelined burst before revoke"] += 1
     return dict(level_claimed="partial", timing_inconclusive=inc, timing_reproduced_3x=rep, boundary_hits=hits)
